@@ -287,6 +287,11 @@ fn from_recipe(v: Proto, r: &Value, request: &[u8], keys: &Keys, old: &Old, midp
     assemble(&Parts { framed, sig: ssig, nonc: honest.nonc.clone(), path, indx, srep, cert_sig: csig, dele })
 }
 
+thread_local! {
+    /// SRV value of the key the client is given in the current stage (what a request of the client may name)
+    pub static REQ_SRV: std::cell::RefCell<Vec<u8>> = std::cell::RefCell::new(vec![]);
+}
+
 /// the local wall-clock text of an instant in DST_ZONE, by the C library
 fn local_text(secs: u64, nanos: u32) -> String {
     let o = Command::new("date").env("TZ", DST_ZONE).arg("-d").arg(format!("@{}.{:09}", secs, nanos)).arg("+%Y-%m-%d %H:%M:%S.%N").output();
@@ -304,6 +309,7 @@ fn emit_run_text(out: &mut dyn Write, kind: &str, v: Proto, keyopt: &str, run: &
     let verified: Vec<bool> = printed.iter().map(|p| p.1).collect();
     writeln!(out, "{}", json!({"ev": "run", "kind": kind, "v": v.tag(), "key": keyopt, "nreq": run.requests.len(), "served": served, "exit": run.exit,
         "printed": printed.len(), "verified": verified, "times_ok": times_ok, "panicked": run.stderr.contains("panicked"), "extra": extra,
+        "reqf": run.requests.iter().map(|r| proto::request_features(r, &REQ_SRV.with(|x| x.borrow().clone()))).collect::<Vec<Value>>(),
         "printed_text": printed.iter().map(|p| p.0.clone()).collect::<Vec<_>>(), "expected_text": want})).unwrap();
 }
 
@@ -312,14 +318,16 @@ fn emit_run(out: &mut dyn Write, kind: &str, v: Proto, keyopt: &str, run: &Clien
     let times_ok = printed.len() <= expect_times.len() && printed.iter().zip(expect_times.iter()).all(|(p, e)| p.0 == e.0 && p.1 == e.1);
     let verified: Vec<bool> = printed.iter().map(|p| p.2).collect();
     let panicked = run.stderr.contains("panicked");
+    let reqf: Vec<Value> = run.requests.iter().map(|r| proto::request_features(r, &REQ_SRV.with(|x| x.borrow().clone()))).collect();
     writeln!(out, "{}", json!({"ev": "run", "kind": kind, "v": v.tag(), "key": keyopt, "nreq": run.requests.len(), "served": served, "exit": run.exit,
-        "printed": printed.len(), "verified": verified, "times_ok": times_ok, "panicked": panicked, "extra": extra})).unwrap();
+        "printed": printed.len(), "verified": verified, "times_ok": times_ok, "panicked": panicked, "extra": extra, "reqf": reqf})).unwrap();
 }
 
 pub fn replay(path: &str, out_path: &str, client_bin: &str, seed: u64, tier: &str) {
     let mut rng = Rng::new(seed ^ 0xC01);
     let keys = Keys::new(&mut rng);
     let pinned = interp::pk_of_seed(&keys.ltk);
+    REQ_SRV.with(|x| *x.borrow_mut() = interp::srv_of_pk(&pinned));
     let sock = UdpSocket::bind("127.0.0.1:0").expect("bind responder");
     let mut out = std::io::BufWriter::new(std::fs::File::create(out_path).expect("create trace"));
     let f = std::fs::File::open(path).expect("open recipes");
@@ -404,6 +412,7 @@ pub fn record(out_path: &str, client_bin: &str, seed: u64, tier: &str) {
     let mut rng = Rng::new(seed ^ 0xC03);
     let keys = Keys::new(&mut rng);
     let pinned = interp::pk_of_seed(&keys.ltk);
+    REQ_SRV.with(|x| *x.borrow_mut() = interp::srv_of_pk(&pinned));
     let sock = UdpSocket::bind("127.0.0.1:0").expect("bind responder");
     let sock_any = UdpSocket::bind("0.0.0.0:0").expect("bind wildcard responder");
     let mut out = std::io::BufWriter::new(std::fs::File::create(out_path).expect("create trace"));
@@ -593,6 +602,7 @@ pub fn record_real(out_path: &str, client_bin: &str, server_bin: &str, workdir: 
         if ready as u64 != *workers { eprintln!("real server did not start ({} of {} workers)", ready, workers); sp.kill_and_reap(); std::process::exit(2); }
         let seed32: [u8; 32] = sp.seed.clone().try_into().unwrap();
         let pinned = interp::pk_of_seed(&seed32);
+        REQ_SRV.with(|x| *x.borrow_mut() = interp::srv_of_pk(&pinned));
         let relay = UdpSocket::bind("127.0.0.1:0").expect("bind relay");
         let nreqs: Vec<usize> = if *batch == 8 { vec![12, 33] } else if thorough { vec![1, 2, 3, 8, 33, 64, 64] } else { vec![1, 8, 64] };
         for v in [Proto::Google, Proto::Ietf] {
